@@ -62,6 +62,7 @@ class Checker:
         self.void = tsnap(self.f.get_void_type())
         self.boolean = tsnap(self.f.get_boolean_type())
         self.infer = infer
+        self.inferred = {}       # id(declaration) -> type a compiler infers (inference mode)
         self._memo = {}
         self.tvars = []          # stack of sets of type-variable names in scope
         self.in_java_lambda = 0
@@ -320,6 +321,8 @@ class Checker:
 
     def decl_type(self, d):
         ast = self.ast
+        if self.infer and id(d) in self.inferred:
+            return self.inferred[id(d)]
         if isinstance(d, ast.VariableDeclaration):
             return self.S(d.var_type if d.var_type is not None else d.inferred_type)
         if isinstance(d, ast.ParameterDeclaration):
@@ -714,6 +717,20 @@ class Checker:
     # -- declarations ----------------------------------------------------------------------
     def check_var(self, v, sc, where):
         w = where + '/' + v.name
+        if self.infer and v.var_type is None:
+            # inference mode: the variable has the type of its initialiser (typed without
+            # an expected type); undetermined -> fall back to the recorded type
+            if id(v) not in self.inferred:
+                n0 = len(self.viol)
+                it = self.typeof(v.expr, sc, w, None)
+                del self.viol[n0:]          # the initialiser is judged once, below
+                if it is not None and it is not BOTTOM:
+                    it = self.read_view(it) if it[0] == 'W' else it
+                if it is not None and it is not BOTTOM and not self.is_void(it):
+                    self.inferred[id(v)] = it
+                    self.stats['inferred_variable_types'] += 1
+            it = self.typeof(v.expr, sc, w, self.inferred.get(id(v)))
+            return
         if v.var_type is not None:
             self.wf(self.S(v.var_type), w)
         t = self.S(v.var_type if v.var_type is not None else v.inferred_type)
@@ -868,6 +885,17 @@ class Checker:
             gsc.names[n] = d
         reserved = set(reserved)
         self.tvars.append(set())
+        if self.infer:
+            # global variables are visible in functions declared before them: infer first
+            for n, d in self.decls.items():
+                if isinstance(d, ast.VariableDeclaration) and d.var_type is None:
+                    n0 = len(self.viol)
+                    it = self.typeof(d.expr, gsc, 'global/' + n, None)
+                    del self.viol[n0:]
+                    if it is not None and it is not BOTTOM:
+                        it = self.read_view(it) if it[0] == 'W' else it
+                    if it is not None and it is not BOTTOM and not self.is_void(it):
+                        self.inferred[id(d)] = it
         for n, d in self.decls.items():
             if isinstance(d, ast.VariableDeclaration):
                 self.check_var(d, gsc, 'global')
